@@ -71,10 +71,58 @@ pub fn library() -> Vec<Item> {
         },
         def("a0", vec![a_of(vec![int(0)])], None),
         def("a1", vec![a_of(vec![int(1), s("one")])], None),
+        Item::Class { doc: vec![], blank: false, name: "D0".into(), targs: vec![], parents: vec![], body: None },
+        Item::Class { doc: vec![], blank: false, name: "D1".into(), targs: vec![], parents: vec![CRef::plain("D0")], body: None },
+        def("d0", vec![CRef::plain("D0")], None),
+        def("dd", vec![CRef::plain("D1")], None),
+        // one field of every type of the conversion matrix: `src.v<i>` is a value whose type is declared, not inferred
+        Item::Class { doc: vec![], blank: false, name: "Src".into(), targs: vec![], parents: vec![], body: Some(conversion_types().into_iter().enumerate().map(|(i, (t, v))| f(t, &format!("v{i}"), v)).collect()) },
+        def("src", vec![CRef::plain("Src")], None),
         Item::Defvar { name: "gi".into(), value: int(3) },
         Item::Defvar { name: "gs".into(), value: s("gs") },
         Item::Defvar { name: "gl".into(), value: E::List(vec![int(1), int(2)]) },
     ]
+}
+
+/// The types of the conversion matrix, each with a literal of the type.
+pub fn conversion_types() -> Vec<(Ty, E)> {
+    let d0 = || Ty::Class("D0".into());
+    let d1 = || Ty::Class("D1".into());
+    vec![
+        (Ty::Bit, int(1)),
+        (Ty::Int, int(1)),
+        (Ty::Str, s("s")),
+        (Ty::Code, E::Code("c".into())),
+        (Ty::Dag, E::Dag(Box::new(id("op")), vec![])),
+        (Ty::Bits(1), E::Bits(vec![int(1)])),
+        (Ty::Bits(2), E::Bits(vec![int(1), int(0)])),
+        (list(Ty::Int), E::List(vec![int(1)])),
+        (list(Ty::Bit), E::List(vec![int(1)])),
+        (list(Ty::Bits(1)), E::List(vec![E::Bits(vec![int(1)])])),
+        (list(list(Ty::Int)), E::List(vec![E::List(vec![int(1)])])),
+        (d0(), id("d0")),
+        (d1(), id("dd")),
+        (list(d0()), E::List(vec![id("d0")])),
+        (list(d1()), E::List(vec![id("dd")])),
+    ]
+}
+
+/// `RecTy::typeIsConvertibleTo` of the TableGen reference implementation, for the types of the matrix
+/// (audited against llvm-tblgen: see DESIGN section 5, C13): may a value of declared type `v`
+/// initialise a slot of type `t`?
+pub fn convertible(v: &Ty, t: &Ty) -> bool {
+    if v == t {
+        return true;
+    }
+    match (v, t) {
+        (Ty::List(a), Ty::List(b)) => convertible(a, b),
+        (Ty::Bit, Ty::Int) | (Ty::Bit, Ty::Bits(1)) => true,
+        (Ty::Bits(_), Ty::Int) | (Ty::Bits(1), Ty::Bit) => true,
+        (Ty::Int, Ty::Bit) | (Ty::Int, Ty::Bits(_)) => true,
+        (Ty::Str, Ty::Code) | (Ty::Code, Ty::Str) => true,
+        (Ty::Class(a), Ty::Class(b)) => a == "D1" && b == "D0",
+        _ => false,
+    }
 }
 
 /// One call of every operator form of DESIGN Appendix D, each initialising a field of the result type.
@@ -165,6 +213,45 @@ pub fn operator_fields() -> Vec<BI> {
 
 /// Feature groups: each is valid on top of the library.
 pub fn features() -> Vec<(&'static str, Vec<Item>)> {
+    let mut all = base_features();
+    all.extend(conversion_features());
+    all
+}
+
+/// Every convertible pair of the matrix, one group per kind of slot: a field initialiser, a body let, a
+/// template argument, a parameter default, a multiclass argument, a group let. (The groups are left out of
+/// the all-groups-together program: they interact with nothing and would only make it slow.)
+pub fn conversion_features() -> Vec<(&'static str, Vec<Item>)> {
+    let c = |name: &str, targs: Vec<TArg>, parents: Vec<CRef>, body: Option<Vec<BI>>| Item::Class { doc: vec![], blank: false, name: name.into(), targs, parents, body };
+    let types = conversion_types();
+    let srcv = |i: usize| E::Field(Box::new(id("src")), format!("v{i}"));
+    let pairs: Vec<(usize, usize)> = (0..types.len()).flat_map(|i| (0..types.len()).map(move |j| (i, j))).filter(|&(i, j)| convertible(&types[i].0, &types[j].0)).collect();
+    let slots = || c("Slots", vec![], vec![], Some(types.iter().enumerate().map(|(j, (t, _))| f(t.clone(), &format!("s{j}"), E::Unset)).collect()));
+    let mut out: Vec<(&'static str, Vec<Item>)> = Vec::new();
+    out.push(("conversions-field", vec![def("conv1", vec![], Some(pairs.iter().map(|&(i, j)| f(types[j].0.clone(), &format!("c{i}_{j}"), srcv(i))).collect()))]));
+    out.push(("conversions-let", vec![slots(), def("conv2", vec![CRef::plain("Slots")], Some(pairs.iter().map(|&(i, j)| BI::Let { name: format!("s{j}"), value: srcv(i) }).collect()))]));
+    let mut items = Vec::new();
+    for (j, (t, _)) in types.iter().enumerate() {
+        items.push(c(&format!("SlotArg{j}"), vec![TArg { ty: t.clone(), name: "sp".into(), default: None }], vec![], Some(vec![f(t.clone(), "held", id("sp"))])));
+    }
+    for &(i, j) in &pairs {
+        items.push(def(&format!("conv3_{i}_{j}"), vec![CRef::with(&format!("SlotArg{j}"), vec![srcv(i)])], None));
+    }
+    out.push(("conversions-argument", items));
+    out.push(("conversions-default", pairs.iter().map(|&(i, j)| c(&format!("convDef{i}_{j}"), vec![TArg { ty: types[j].0.clone(), name: "dp".into(), default: Some(srcv(i)) }], vec![], None)).collect()));
+    let mut items = vec![slots()];
+    for (j, (t, _)) in types.iter().enumerate() {
+        items.push(Item::Multiclass { doc: vec![], name: format!("MSlot{j}"), targs: vec![TArg { ty: t.clone(), name: "mp".into(), default: None }], parents: vec![], body: vec![def("_m", vec![CRef::plain("Slots")], Some(vec![BI::Let { name: format!("s{j}"), value: id("mp") }]))] });
+    }
+    for &(i, j) in &pairs {
+        items.push(Item::Defm { name: Some(format!("conv5_{i}_{j}")), parents: vec![CRef::with(&format!("MSlot{j}"), vec![srcv(i)])] });
+    }
+    out.push(("conversions-multiclass", items));
+    out.push(("conversions-group-let", vec![slots(), Item::Let { binds: pairs.iter().map(|&(i, j)| (format!("s{j}"), srcv(i))).collect(), body: vec![def("conv4", vec![CRef::plain("Slots")], None)], braces: false }]));
+    out
+}
+
+fn base_features() -> Vec<(&'static str, Vec<Item>)> {
     let c = |name: &str, targs: Vec<TArg>, parents: Vec<CRef>, body: Option<Vec<BI>>| Item::Class { doc: vec![], blank: false, name: name.into(), targs, parents, body };
     let ti = |n: &str| TArg { ty: Ty::Int, name: n.into(), default: None };
     vec![
@@ -346,12 +433,8 @@ pub fn features() -> Vec<(&'static str, Vec<Item>)> {
         (
             "subclass-cast",
             vec![
-                c("D0", vec![], vec![], None),
-                c("D1", vec![], vec![CRef::plain("D0")], None),
-                def("dd", vec![CRef::plain("D1")], None),
                 def("holder", vec![], Some(vec![f(Ty::Class("D0".into()), "up", id("dd")), f(list(Ty::Class("D0".into())), "ups", E::List(vec![id("dd")]))])),
                 // the same through a top-level let, a body let and a template argument; `down` asks for the subclass
-                def("d0", vec![CRef::plain("D0")], None),
                 c(
                     "HolderD",
                     vec![TArg { ty: Ty::Class("D0".into()), name: "hp".into(), default: Some(id("dd")) }],
@@ -404,13 +487,13 @@ pub fn valid_programs(pairs: bool, mut f: impl FnMut(&Program, &str) -> bool) {
     if pairs {
         for i in 0..feats.len() {
             for j in 0..feats.len() {
-                if i != j {
+                if i != j && !(feats[i].0.starts_with("conversions") && feats[j].0.starts_with("conversions")) {
                     combos.push(vec![i, j]);
                 }
             }
         }
     }
-    combos.push((0..feats.len()).collect());
+    combos.push((0..feats.len()).filter(|&i| !feats[i].0.starts_with("conversions")).collect());
     for combo in combos {
         let tag: String = combo.iter().map(|&i| feats[i].0).collect::<Vec<_>>().join("+");
         let body: Vec<Item> = combo.iter().flat_map(|&i| feats[i].1.clone()).collect();
@@ -471,8 +554,22 @@ pub fn arity(op: &str) -> (usize, usize) {
     }
 }
 
-/// Values the reference calls incompatible with a declared type.
-fn incompatible(t: &Ty) -> Vec<&'static str> {
+/// Values the reference calls incompatible with a declared type: literals, and for the types of the
+/// conversion matrix every field of `src` whose declared type does not convert.
+fn incompatible(t: &Ty) -> Vec<String> {
+    let mut out: Vec<String> = incompatible_literals(t).into_iter().map(|x| x.to_string()).collect();
+    let types = conversion_types();
+    if types.iter().any(|(x, _)| x == t) {
+        for (i, (v, _)) in types.iter().enumerate() {
+            if !convertible(v, t) {
+                out.push(format!("src.v{i}"));
+            }
+        }
+    }
+    out
+}
+
+fn incompatible_literals(t: &Ty) -> Vec<&'static str> {
     // `op` is a def without parents: a record, but of no class a slot asks for
     match t {
         Ty::Int => vec!["\"wrong\"", "[\"wrong\"]", "(op)", "op", "[{ c }]"],
@@ -514,9 +611,31 @@ pub fn faults(em: &Emitted) -> Vec<Fault> {
     for (file, span) in &em.includes {
         out.push(replace("undefined-include", *file, *span, "nosuch.td"));
     }
+    // typed sources: at every slot outside the library of the programs that contain the conversion
+    // matrix (its contexts are every kind of slot); the library ends with the definition of `gl`
+    let with_matrix = ["def conv", "class convDef", "defm conv"].iter().any(|m| em.files[0].text.contains(m));
+    let library_end: Option<(usize, usize)> = em.files.iter().enumerate().find_map(|(i, fo)| fo.text.find("defvar gl").map(|p| (i, p)));
+    // (the fields of Src itself are slots of every program: they are faulted in the matrix programs only)
+    let src_class: Option<(usize, usize, usize)> = em.files.iter().enumerate().find_map(|(i, fo)| {
+        let start = fo.text.find("class Src")?;
+        Some((i, start, start + fo.text[start..].find("def src")?))
+    });
+    let mut typed_done: std::collections::BTreeSet<String> = Default::default();
     for sl in &em.slots {
+        let outside_library = match library_end {
+            Some((file, pos)) => sl.file != file || sl.span.0 > pos,
+            None => false,
+        };
+        if !with_matrix && matches!(src_class, Some((file, a, b)) if sl.file == file && a <= sl.span.0 && sl.span.0 < b) {
+            continue;
+        }
+        // one slot of each kind and type carries the typed sources
+        let typed_here = with_matrix && outside_library && typed_done.insert(format!("{} {:?}", sl.what, sl.expected));
         for v in incompatible(&sl.expected) {
-            out.push(Fault { class: "type-incompatible", ..replace("type-incompatible", sl.file, sl.span, v) });
+            if v.starts_with("src.") && !typed_here {
+                continue;
+            }
+            out.push(Fault { class: "type-incompatible", ..replace("type-incompatible", sl.file, sl.span, &v) });
         }
     }
     for al in &em.arg_lists {
